@@ -1,5 +1,6 @@
 """C19 deductive part: frame conditions F1-F5 of fit / predict for every estimator class (effect analysis over the real ASTs)."""
 from ..contracts.adv_gradflow import Evaluate
+from ..contracts.eg_predict import Predict as EGPredict
 from ..pyvc import verify
 from ..static import frames
 
@@ -12,6 +13,8 @@ def run_deductive(rep):
     # prediction of the adversarial estimators goes through BackendEngine.evaluate: one forward pass in evaluation mode (no Dropout noise, no BatchNorm update)
     rep.trust("torch/keras module contract: a forward pass in evaluation mode is a pure function of the input and the parameters; in training mode Dropout draws "
               "random masks and BatchNorm updates its running statistics (assumed)")
-    verify.verify_many(rep, [(Evaluate("torch", False), [("evaluation_mode_not_entered", verify.replace_expr("self.predictor_model.eval()", "None"))]),
+    # repeating predict(random_state=s) repeats the answer: every random draw comes from the generator derived from the caller's random_state
+    verify.verify_many(rep, [(EGPredict(True), []), (EGPredict(False), [("global_generator_instead_of_the_seeded_one", verify.replace_expr("random_state.choice", "np.random.choice"))]),
+                             (Evaluate("torch", False), [("evaluation_mode_not_entered", verify.replace_expr("self.predictor_model.eval()", "None"))]),
                              (Evaluate("torch", True), []),
                              (Evaluate("tf"), [("training_flag_dropped", verify.replace_expr("self.predictor_model(X, training=False)", "self.predictor_model(X)"))])])
